@@ -30,6 +30,24 @@ class InjectedFault(Exception):
     """Raised by a harness hook when the fault plan says so."""
 
 
+FAULT_FLAVOUR = ["plain"]  # "plain": InjectedFault; "tree": a TreeError subclass; "loop": a LoopError subclass
+_FLAVOURS = {}
+
+
+def fault_class():
+    """A validating node class typically raises TreeError / ValueError from its hooks: the class of the injected
+    exception is part of the alphabet (roll-back code must not depend on it)."""
+    fl = FAULT_FLAVOUR[0]
+    if fl == "plain":
+        return InjectedFault
+    if fl not in _FLAVOURS:
+        import anytree
+
+        base = {"tree": anytree.TreeError, "loop": anytree.LoopError, "value": ValueError, "attr": AttributeError}[fl]
+        _FLAVOURS[fl] = type("Injected_" + fl, (InjectedFault, base), {})
+    return _FLAVOURS[fl]
+
+
 class Duck(object):
     """Looks a bit like a node but is not one."""
 
@@ -179,7 +197,7 @@ class Universe(object):
         p = self.persist
         if i in self.raise_at or (p is not None and i >= p[2] and name == p[0] and nl == p[1]):
             self.faults.append(i)
-            raise InjectedFault("%s(%s) #%d" % (name, nl, i))
+            raise fault_class()("%s(%s) #%d" % (name, nl, i))
 
     def arm(self, raise_at=(), persist=None, snap=False):
         self.log = []
@@ -315,7 +333,7 @@ def execute(kind, n, witness, op, pre=None, raise_at=(), persist=None, snap=Fals
         u.apply(op)
         ex.outcome = "ok"
     except Exception as exc:  # noqa - everything the call raises is an observation
-        ex.outcome = type(exc).__name__
+        ex.outcome = "InjectedFault" if isinstance(exc, InjectedFault) else type(exc).__name__
         ex.exc = exc
         ex.mro = tuple(c.__name__ for c in type(exc).__mro__)
     u.raise_at = frozenset()
